@@ -1093,6 +1093,34 @@ def concrete_c17(c):
                 actual = [v for n in nodes for v in values.get((n, stm.pred, stm.inverse), [])]
                 if not any((v[0] == "lit" and val == v[2]) or (v[0] != "lit" and val == v[1]) for v in actual):
                     problems.append("example %r of %s%s in %s is not a value of that property on an instance" % (m.group(1), "^" if stm.inverse else "", stm.pred, sh.label))
+    shacl = c["reals"][1].get("shacl")
+    if shacl is not None and extra.get("detect_minimal_iri"):
+        # SHACL rendering of the same run: sh:pattern "^<stem>" exactly for the shapes with a stem, and the same constraints as the ShExC text
+        import rdflib
+        import rdflib.compare
+        classes = sorted({cl for cls_ in cref.instances.values() for cl in cls_})
+        for p_ in c11_differences(b, shacl, classes):
+            if _c11_class(p_) is None:
+                problems.append("SHACL with detect_minimal_iri: " + p_)
+        g = rdflib.Graph()
+        g.parse(data=shacl, format="turtle")
+        S = rdflib.Namespace(SH)
+        for shape in g.subjects(rdflib.RDF.type, S.NodeShape):
+            nodes = inst_of.get(str(shape), [])
+            want = _ref_stem(nodes) if nodes else None
+            pats = sorted(str(x) for x in g.objects(shape, S.pattern))
+            if pats != ([] if want is None else ["^" + want]):
+                problems.append("sh:pattern of %s is %r, the instances %r give %r" % (shape, pats, nodes[:4], want))
+        a_shacl = c["reals"][0].get("shacl")
+        if a_shacl is not None:
+            ga = rdflib.Graph()
+            ga.parse(data=a_shacl, format="turtle")
+            if list(ga.triples((None, S.pattern, None))):
+                problems.append("sh:pattern printed although detect_minimal_iri is off")
+            for t_ in list(g.triples((None, S.pattern, None))):
+                g.remove(t_)
+            if not rdflib.compare.isomorphic(ga, g):
+                problems.append("detect_minimal_iri changes the SHACL graph beyond sh:pattern")
     return problems
 
 
